@@ -160,6 +160,11 @@ def _fit(kind, d, X, y, k, mixing, re, tolerance, n, record=True, prefit=False):
         s.n_to_select = n
         if exc0 is not None:
             return s, None, exc0
+        Xo[...] = X  # the caller refills the same array objects in place and passes them again
+        X = Xo
+        if yo is not None and yo.dtype == np.asarray(y).dtype:
+            yo[...] = y
+            y = yo
     rec = sel.ScoreRecorder(s) if record else None
     _, exc = sel.fit_quiet(s, X, y)
     return s, rec, exc
